@@ -89,3 +89,9 @@ check("C16", "exploration", "runtime monitoring: differential execution of the t
       "real loopback sockets, bare and under a full device session.",
       "Trusted: simulator determinism for equal seeds; the callback calling conventions of the two APIs.",
       "DESIGN.md section 4 C16")
+check("C18", "exploration", "runtime monitoring on real loopback sockets: both ends of the connection are recorded; one-sided wall-clock bounds",
+      "TcpTransport and TcpTransportAsync are driven over real sockets against a scripted peer (fragments from 1 byte to 64 KiB, pauses longer than the timeout, inbound data) "
+      "and against the device simulator behind a socket; read sizes, ordering, completeness, timeout behaviour, idempotent close and reconnect are checked from the bytes seen "
+      "at both ends.",
+      "Trusted: the kernel's loopback TCP. Timing is used only as a lower bound (not before 0.8 x timeout); late firing is never a violation.",
+      "DESIGN.md section 4 C18")
